@@ -40,6 +40,8 @@ MANIFEST = {
 
 
 def run(ctx):
+    from rules.common import require_fields
+    require_fields(ctx.program, 'fileutils.AtomicSaver', ['part_path', 'dest_path', 'part_file', 'open_flags', 'overwrite', 'overwrite_part', 'rm_part_on_exc'])
     atomicsave.check_c04(ctx)
     for r, n in (('C04.O1', 2), ('C04.O2', 2), ('C04.O3', 1), ('C04.O4', 2), ('C04.O4g', 2), ('C04.O5', 4),
                  ('C04.O6', 2), ('C04.T17', 1)):
